@@ -67,6 +67,7 @@ func init() {
 	commands["bodies"] = func(args []string) error {
 		out := NewOutput()
 		rng := NewRng(seedFromEnv(), "bodies")
+		genQc(out, rng)
 		thorough := tier() == "thorough"
 		eff := time.Date(2024, 3, 1, 0, 0, 0, 0, time.UTC)
 		// ---- GeneralizedTime lints
